@@ -63,6 +63,8 @@ func (s *Default) refresh(ctx context.Context, acceptStale bool) (err error) {
 		}
 	}
 
+	s.setPrevForInvalidEntries(resp, newRuleLists)
+
 	s.logger.InfoContext(ctx, "compiled lists", "num_lists", len(newRuleLists))
 
 	err = s.refreshServices(ctx, acceptStale)
@@ -175,6 +177,28 @@ func (s *Default) setPrevRuleList(newRuleLists ruleLists, id filter.ID) {
 
 	if rl, ok := s.ruleLists[id]; ok {
 		newRuleLists[id] = rl
+	}
+}
+
+// setPrevForInvalidEntries adds the previous versions of the rule lists whose
+// entries in the index have a valid ID but are otherwise invalid, for example
+// because of an empty or unparsable download URL, to newRuleLists.  This way
+// a broken index entry does not disable a rule list that is already loaded.
+func (s *Default) setPrevForInvalidEntries(resp *indexResp, newRuleLists ruleLists) {
+	for _, rf := range resp.Filters {
+		if rf == nil {
+			continue
+		}
+
+		id, err := filter.NewID(rf.Key)
+		if err != nil {
+			// The entry cannot be attributed to any rule list.
+			continue
+		}
+
+		if _, ok := newRuleLists[id]; !ok {
+			s.setPrevRuleList(newRuleLists, id)
+		}
 	}
 }
 
